@@ -151,8 +151,11 @@ Changes(x, t, i) ==
     /\ LET err == ErrOf(x, t) IN
        IF err # "" THEN res' = [op |-> "changes", tx |-> x, t |-> t, it |-> i, err |-> err] /\ UNCHANGED << wtx, iter >>
        ELSE /\ wtx' = [wtx EXCEPT ![x].work[t].trk = @ \cup {i}]
+            \* wrev: the table revision of the source of the last re-query; the watch channel the iterator keeps
+            \* belongs to that version of the revision index
             /\ iter' = (i :> [t |-> t, crev |-> wtx[x].work[t].rev, tx |-> x, st |-> "pending",
-                              last |-> 0, mark |-> wtx[x].work[t].rev, replay |-> << >>, dels |-> {}]) @@ iter
+                              last |-> 0, mark |-> wtx[x].work[t].rev, replay |-> << >>, dels |-> {},
+                              wrev |-> wtx[x].work[t].rev]) @@ iter
             /\ res' = [op |-> "changes", tx |-> x, t |-> t, it |-> i, err |-> ""]
     /\ UNCHANGED << root, snap, chan >>
 
@@ -177,14 +180,22 @@ IterNext(i, s, cs, cw, ex, w) ==
            revs == { cs[j][3] : j \in 1..Len(cs) }
            drevs == { cs[j][3] : j \in { k \in 1..Len(cs) : cs[k][4] } } IN
        /\ iter' = [iter EXCEPT ![i].replay = ReplayAll(it.replay, cs),
+                               \* a closed channel is returned exactly when the iterator re-queried with s
+                               ![i].wrev = IF cw THEN SrcCommitted(s, it.t).rev ELSE @,
                                ![i].last = MaxOf(revs, it.last),
                                ![i].mark = MaxOf(drevs \cup {it.mark}, it.mark),
                                ![i].dels = @ \cup { << cs[j][1], cs[j][3] >> : j \in { k \in 1..Len(cs) : cs[k][4] } }]
        /\ res' = [op |-> "next", it |-> i, src |-> s, cw |-> cw, ex |-> ex, w |-> w, n |-> Len(cs)]
+       \* the open channel handed out is the one kept since the last re-query: if the committed table has moved on
+       \* since (possible only while the commit that moved it is still between its publish and its return) the
+       \* channel must close by the time that commit returns
        /\ chan' = IF w = 0 THEN chan
-                  ELSE (w :> [kind |-> "query", t |-> it.t, idx |-> "rev", q |-> "all", key |-> << >>,
-                              res0 |-> << >>, rev0 |-> SrcCommitted(s, it.t).rev, tx |-> 0, live |-> TRUE,
-                              must |-> FALSE, by |-> 0, closed |-> FALSE]) @@ chan
+                  ELSE LET inflight == { y \in DOMAIN wtx : wtx[y].st = "published" /\ it.t \in wtx[y].tabs } IN
+                       (w :> [kind |-> "query", t |-> it.t, idx |-> "rev", q |-> "all", key |-> << >>,
+                              res0 |-> << >>, rev0 |-> it.wrev, tx |-> 0, live |-> TRUE,
+                              must |-> (root[it.t].rev # it.wrev),
+                              by |-> IF inflight = {} THEN 0 ELSE CHOOSE y \in inflight : TRUE,
+                              closed |-> FALSE]) @@ chan
     /\ UNCHANGED << root, wtx, snap >>
 
 \* Close() is a write transaction of its own that unregisters the tracker
